@@ -44,12 +44,23 @@ _cycle = _CycleAccessor()
 
 
 class _NotWritten:
-    """Falsy placeholder for `memory.fully_handled_once` during one `process_changing_cause` pass."""
+    """Placeholder for `memory.fully_handled_once` during one `process_changing_cause` pass: told from a written value
+    by identity, but it READS like the value it stands for (white-box review C03 m3: the former always-falsy placeholder
+    hid a change of the code under test that reads the flag inside the pass)."""
+    def __init__(self, value: Any = False) -> None:
+        self.value = bool(value)
+
     def __bool__(self) -> bool:
-        return False
+        return self.value
+
+    def __eq__(self, other: Any) -> bool:
+        return bool(other) == self.value if isinstance(other, (bool, _NotWritten)) else NotImplemented
+
+    def __hash__(self) -> int:
+        return hash(self.value)
 
     def __repr__(self) -> str:
-        return "<not written>"
+        return f"<not written: {self.value}>"
 
 
 _NOT_WRITTEN = _NotWritten()
@@ -474,13 +485,14 @@ def installed(obs: Observer) -> Iterator[None]:
         # (a falsy sentinel instead of a plain False, so that a write of False by the code under test — the flag
         # cleared again by a pass — is told from "not written" and is NOT repaired here: white-box review C05 m6)
         prev_flag = mem_.fully_handled_once
-        mem_.fully_handled_once = _NOT_WRITTEN
+        placeholder = _NotWritten(prev_flag)      # reads like the flag itself; a write replaces it
+        mem_.fully_handled_once = placeholder
         try:
             out = await orig_pcc(**kw)
         finally:
             written = mem_.fully_handled_once
-            info["closed"] = bool(written)
-            if written is _NOT_WRITTEN:
+            info["closed"] = bool(written) and written is not placeholder
+            if written is placeholder:
                 mem_.fully_handled_once = prev_flag
             else:
                 info["flag_written"] = bool(written)
